@@ -192,10 +192,22 @@ async fn run_task(m: usize, ti: usize, inc: u16, start_ns: u64, spec: TaskSpec, 
                         _ => des::time::timeout_at(dl, std::future::pending::<()>()).await.is_ok(),
                     }
                 } else {
-                    match inner % 3 {
+                    match inner % 4 {
                         0 => timeout(dur, sleep(Duration::from_nanos(*d2))).await.is_ok(),
                         1 => timeout(dur, std::future::ready(())).await.is_ok(),
-                        _ => timeout(dur, std::future::pending::<()>()).await.is_ok(),
+                        2 => timeout(dur, std::future::pending::<()>()).await.is_ok(),
+                        // an idle timer: created as a far-future sleep, then armed (reset) for now + d2
+                        _ => {
+                            let d2 = Duration::from_nanos(*d2);
+                            timeout(dur, async move {
+                                let s = sleep(Duration::MAX);
+                                tokio::pin!(s);
+                                s.as_mut().reset(SimTime::now() + d2);
+                                s.await;
+                            })
+                            .await
+                            .is_ok()
+                        }
                     }
                 };
                 log(si, if ok { T_OK } else { T_ELAPSED }, 0);
@@ -444,8 +456,8 @@ pub fn evaluate(tasks: &[TaskSpec], start: u64, ext: &[(u64, usize)]) -> Vec<Exp
                             // (decided when the step starts, not when the evaluation comes back to it at its completion)
                             let d = if at && back && s.sub == 0 && d < u64::MAX - 2 && now >= d { 0 } else { d };
                             // inner result iff the inner future completes no later than the deadline
-                            let (dt, code) = match inner % 3 {
-                                0 => {
+                            let (dt, code) = match if at { inner % 3 } else { inner % 4 } {
+                                0 | 3 => {
                                     if d2 <= d {
                                         (d2, T_OK)
                                     } else {
@@ -813,6 +825,7 @@ fn gen_timer_step(rng: &mut Rng) -> AStep {
         2 => AStep::SleepUntil { at: d(rng) * rng.below(4) },
         3 | 4 if rng.chance(1, 12) => AStep::Timeout { d: u64::MAX - rng.below(3), inner: rng.below(2) as u8, d2: d(rng), at: false, back: false },
         3 | 4 if rng.chance(1, 10) => AStep::Timeout { d: 1 + d(rng), inner: rng.below(3) as u8, d2: d(rng), at: true, back: true },
+        3 | 4 if rng.chance(1, 6) => AStep::Timeout { d: d(rng), inner: 3, d2: d(rng), at: false, back: false },
         3 | 4 => AStep::Timeout { d: d(rng), inner: rng.below(3) as u8, d2: d(rng), at: rng.chance(1, 3), back: false },
         5 | 6 => {
             let n = 2 + rng.below(2) as usize;
